@@ -13,6 +13,14 @@ Every case is recorded as name-keyed projections of the saved files (fontTools r
 observations of independent readers (HarfBuzz, harness.rawsfnt) and shaping results; Trace_C17 (TLC)
 decides: NameView equality, permuted by-gid arrays, sorted Coverages, NoDangling / Scaled within the
 stated bound, NothingElse.
+
+Mechanics: (M) runs in a background thread while the worker pool drives the real code.  The design-unit
+numbers of the scale cases are sent to TLC as de-duplicated facts (kind "nums": factor, before, after,
+bound) and the verdicts are joined back to the cases in judge_results.  A transformation that raises
+anything but NotImplementedError is a case of kind "raised" (rejected unless it was scaling UP).  The
+clauses TLC rejects are reported under one stable key per root cause (ROOT_CAUSES): the primary clause
+names the table the defect lives in, dependent observations of the same case are folded into it.
+VERIF_C17_ONLY=<regex> (development / sensitivity runs only) restricts the fonts and skips (M).
 """
 import io
 import json
@@ -118,7 +126,10 @@ def _load_file(data, order):
     file_order = list(f.getGlyphOrder())
     # does the FILE state glyph names (CFF charset strings / post formats with names), or did the reader make them up?
     stored = "CFF " in f or ("post" in f and f["post"].formatType in (1.0, 2.0, 4.0))
-    carried = bool(stored) and file_order == list(order)
+    # a post table with duplicate names violates the format; the reader renames the later duplicates ("a#1"), so which
+    # glyph gets which name depends on the order: such files do not carry usable names
+    dup = "post" in f and bool(getattr(f["post"], "mapping", None))
+    carried = bool(stored) and not dup and file_order == list(order)
     if file_order != list(order):
         f = P.load(data, lazy=False)
         f.setGlyphOrder(list(order))
@@ -169,8 +180,9 @@ def _observe_reorder(data, order, plan, want_tv=None):
     if "SVG " in font:
         rawgid["SVG "] = (P.freeze([(d.data, d.startGlyphID, d.endGlyphID) for d in font["SVG "].docList]),
                           sorted({g for d in font["SVG "].docList for g in range(d.startGlyphID, d.endGlyphID + 1)}))
+    implicit = [tag for tag, a in (("HVAR", "AdvWidthMap"), ("VVAR", "AdvHeightMap")) if tag in font and getattr(font[tag].table, a, None) is None]
     return {"order": list(order), "file_order": file_order, "carried": carried, "views": views, "tv": tv, "sorted": srt, "hb": hb,
-            "raw": raw, "rawgid": rawgid, "sample_gids": sample_gids}
+            "raw": raw, "rawgid": rawgid, "sample_gids": sample_gids, "implicit_metric_maps": implicit}
 
 
 def _hb_gid_fields(obs, order, g, names_real):
@@ -345,8 +357,17 @@ def _strip_close(ops):
 def build_scale_trace(B, A, want, meta, rng, cap):
     I = common.Interner()
     tabs, items, fm = [], [], []
+    fractional = 0
     for key in sorted(set(B["V"]) | set(A["V"])):
         lb, la = B["V"].get(key), A["V"].get(key)
+        if lb is not None and la is not None:
+            # glyphs whose coordinates are not (half-)integral before scaling are outside the integer arithmetic of the
+            # judge: their pen leaves are dropped on both sides (counted)
+            frac = {p[:2] for p, k, v, _h in lb if k == "I" and v == "non-integer-coordinates"}
+            if frac:
+                fractional += len(frac)
+                lb = [l for l in lb if l[0][:2] not in frac]
+                la = [l for l in la if l[0][:2] not in frac]
         sb = _skel(lb) if lb is not None else ("<absent>",)
         sa = _skel(la) if la is not None else ("<absent>",)
         tabs.append([key, I(sb), I(sa)])
@@ -415,6 +436,10 @@ def build_scale_trace(B, A, want, meta, rng, cap):
         hbt.append(["hb.shape", I(nb_), I(na_)])
         if nb_ == na_:
             h = 2 + 3 * L * max(1, len(res))
+            if key[0] == "c":
+                # code-point probes: without GPOS mark positioning HarfBuzz places Unicode marks from the glyph EXTENTS
+                # of base and mark (x/y bearing, width, height of each: 8 numbers, each made of bb rounded numbers)
+                h += 8 * B["info"].get("bb", 1)
             for r1, r2 in zip(res, ra):
                 for c in (1, 2, 3, 4):
                     hbi.append(("hb.pos", r1[c], r2[c], h))
@@ -438,7 +463,9 @@ def build_scale_trace(B, A, want, meta, rng, cap):
             if not x or not y or x[0] == "math-error" or y[0] == "math-error":
                 continue
             hbi.append(("hb.math.italics", x[0], y[0], 1))
-            hbi.append(("hb.math.topaccent", x[1], y[1], 1))
+            # without a top-accent record HarfBuzz answers floor(advance / 2): A = floor(round(k*a)/2), B = floor(a/2)
+            # gives -3/4 <= A - k*B <= 1/4 + k/2, within (2 + ceil(k))/2; records themselves are judged on the table (h = 1)
+            hbi.append(("hb.math.topaccent", x[1], y[1], 2 + -(-want // B["upem"])))
             sk_b = (tuple(v[0] for v in x[2]), tuple(v[0] for v in x[3]), tuple(tuple((p[0], p[4]) for p in ps) for ps, _ in x[4]))
             sk_a = (tuple(v[0] for v in y[2]), tuple(v[0] for v in y[3]), tuple(tuple((p[0], p[4]) for p in ps) for ps, _ in y[4]))
             hbt.append(["hb.math.variants", I(sk_b), I(sk_a)])
@@ -457,9 +484,11 @@ def build_scale_trace(B, A, want, meta, rng, cap):
         items = [items[i] for i in sorted(rng.sample(range(len(items)), cap))]
     if len(hbi) > cap:
         hbi = [hbi[i] for i in sorted(rng.sample(range(len(hbi)), cap))]
-    t = {"k": "scale", "ub": B["upem"], "ua": A["upem"], "want": want, "tabs": tabs, "items": [list(x) for x in items], "fm": fm,
-         "hbt": hbt, "hbi": [list(x) for x in hbi], "meta": meta}
-    stats = {"numbers": total, "closure_skips": closure_skips, "nonint": nonint + B["info"]["nonint"], "skipped": B["info"]["skipped"]}
+    # "_items" / "_hbi" (design-unit numbers) are judged as de-duplicated "nums" facts, see judge_results
+    t = {"k": "scale", "ub": B["upem"], "ua": A["upem"], "want": want, "tabs": tabs, "_items": items, "fm": fm,
+         "hbt": hbt, "_hbi": hbi, "meta": meta}
+    stats = {"numbers": total, "closure_skips": closure_skips, "nonint": nonint + B["info"]["nonint"], "skipped": B["info"]["skipped"],
+             "fractional": fractional}
     return t, stats
 
 
@@ -487,6 +516,14 @@ def describe_scale(B, A, clause, num, den):
 
 
 # ---- the job ----------------------------------------------------------------------
+def _exc_id(e):
+    """exception type @ innermost fontTools function: stable across inputs for one cause"""
+    tb = traceback.extract_tb(e.__traceback__)
+    fr = [f for f in tb if "fontTools" in f.filename] or list(tb)
+    f = fr[-1]
+    return "%s@%s.%s" % (type(e).__name__, os.path.splitext(os.path.basename(f.filename))[0], f.name)
+
+
 class _Timer:
     """CPU seconds per phase of one job (evidence / tuning only)."""
 
@@ -553,13 +590,14 @@ def font_job(args):
                     continue
                 except Exception as e:
                     out["stats"].append({"raised": "%s reorder %s: %s: %s" % (label, kind, type(e).__name__, str(e)[:100])})
-                    out["traces"].append(({"k": "raised", "op": "reorder", "exc": type(e).__name__, "ub": 1, "want": 1,
+                    out["traces"].append(({"k": "raised", "op": "reorder", "exc": _exc_id(e), "ub": 1, "want": 1,
                                            "meta": dict(meta, error=str(e)[:200])}, ("reorder", label, kind)))
                     continue
                 A = _observe_reorder(after, want, plan)
                 tm("reorder-observe-after")
                 t = build_reorder_trace(B, A, want, meta)
                 t["meta"]["moved"] = sum(1 for a, b in zip(order, want) if a != b)
+                t["meta"]["implicit_metric_maps"] = B["implicit_metric_maps"]
                 if len(want) <= 60:
                     t["meta"]["want_order"] = list(want)
                 out["traces"].append((t, ("reorder", label, kind)))
@@ -587,12 +625,12 @@ def font_job(args):
                     continue
                 except Exception as e:
                     out["stats"].append({"raised": "%s scale %d->%d: %s: %s" % (label, upem, target, type(e).__name__, str(e)[:100])})
-                    out["traces"].append(({"k": "raised", "op": "scale", "exc": type(e).__name__, "ub": upem, "want": target,
+                    out["traces"].append(({"k": "raised", "op": "scale", "exc": _exc_id(e), "ub": upem, "want": target,
                                            "meta": dict(meta, error=str(e)[:200])}, ("scale", label, target)))
                     continue
                 A = _observe_scale(after, order, plan)
                 tm("scale-observe-after")
-                t, stats = build_scale_trace(B, A, target, meta, rng, 2500 if tier == "quick" else 20000)
+                t, stats = build_scale_trace(B, A, target, meta, rng, 1200 if tier == "quick" else 20000)
                 g = Fraction(target, upem)
                 t["_desc"] = {}
                 for c, a in _prejudge_scale(t, g.numerator, g.denominator):
@@ -601,6 +639,8 @@ def font_job(args):
                 out["stats"].append(stats)
                 for s in stats["skipped"]:
                     out["skips"].append(s)
+                if stats["fractional"]:
+                    out["skips"].append("glyph outlines with fractional coordinates before scaling (glyphs)")
                 if stats["closure_skips"]:
                     out["skips"].append("HarfBuzz outline: closing line changed through accumulated rounding (glyphs)")
                 tm("scale-trace")
@@ -633,7 +673,7 @@ def _prejudge_scale(t, num, den):
         if a != b:
             out.append(("nothingelse", k))
     seen = set()
-    for key, vb, va, h in t["items"]:
+    for key, vb, va, h in t["_items"]:
         if key not in seen and 2 * abs(va * den - vb * num) > h * den:
             seen.add(key)
             out.append(("scaled", key))
@@ -719,7 +759,7 @@ def scale_family_job(args):
         scale_upem(f, target)
         A = _observe_scale(P.save(f), order, plan)
         meta = {"font": label, "op": "scale", "upem": upem, "target": target, "n": len(order), "ngpos": plan["ngpos"]}
-        t, stats = build_scale_trace(B, A, target, meta, rng, 40000)
+        t, stats = build_scale_trace(B, A, target, meta, rng, 6000 if tier == "quick" else 40000)
         g = Fraction(target, upem)
         t["_desc"] = {c + ":" + str(a): describe_scale(B, A, [c, a], g.numerator, g.denominator) for c, a in _prejudge_scale(t, g.numerator, g.denominator)}
         out["traces"].append((t, ("scale", label, target)))
@@ -795,17 +835,29 @@ def run(chk):
                 "non-trivial = reorder that moves >= 2 glyphs of a font with a gid-indexed layout/composite/variation structure, or a "
                 "scale with factor != 1 yielding >= 20 distinct design-unit numbers")
     t0 = time.time()
-    specs = run_gen(chk)
+    # development / sensitivity runs only: VERIF_C17_ONLY=<regex on font labels> restricts the fonts and skips (M);
+    # the evidence is then marked "subset" (never set for a registered run)
+    only = os.environ.get("VERIF_C17_ONLY")
+    import re
+
+    keep = (lambda label: re.search(only, label) is not None) if only else (lambda label: True)
+    specs = run_gen(chk) if keep("model:family/") else []
     jobs = []
     for label, data, idx in sources(chk):
-        jobs.append((label, data, idx, chk.seed, chk.tier, ("reorder", "scale")))
+        if keep(label):
+            jobs.append((label, data, idx, chk.seed, chk.tier, ("reorder", "scale")))
     for label, data, idx, do in model_sources(chk, specs):
-        jobs.append((label, data, idx, chk.seed, chk.tier, do))
+        if keep(label):
+            jobs.append((label, data, idx, chk.seed, chk.tier, do))
     # biggest first so that the pool is balanced
     jobs.sort(key=lambda j: -len(j[1]))
     chk.log("%d fonts (%d corpus, rest model); driving the real reorderGlyphs / scale_upem" % (len(jobs), len([j for j in jobs if not j[0].startswith("model:")])))
-    fam_jobs = [(l, d, t, chk.seed, chk.tier) for l, d, t in scale_family_sources(chk)]
-    mc = _Background(run_mc, chk, workers=4)       # (M) shares the machine with the worker pool
+    fam_jobs = [(l, d, t, chk.seed, chk.tier) for l, d, t in scale_family_sources(chk) if keep(l)]
+    if only:
+        chk.notes["subset"] = only
+        mc = _Background(lambda: None)
+    else:
+        mc = _Background(run_mc, chk, workers=4)       # (M) shares the machine with the worker pool
     t1 = time.time()
     results = common.pmap(_any_job, [("family", j) for j in fam_jobs] + [("font", j) for j in jobs], procs=13)
     chk.log("driven in %.0fs" % (time.time() - t1))
@@ -823,13 +875,61 @@ def run(chk):
     chk.assumptions += [
         "before = the untransformed font saved once by the library, after = the transformed font saved; both re-read from bytes",
         "glyph names of files that do not carry names (post 3.0) are taken from the in-memory glyph order the file was saved with",
-        "TrueType hinting (cvt, fpgm, prep, glyph programs, cvar), CFF hint operands and Private hint dictionaries are outside the "
-        "property's list of scaled quantities: required unchanged where compared as bytes, else not compared",
+        "TrueType hinting (cvt, fpgm, prep, glyph programs, cvar), the stem-hint operands of charstrings and the Private DICT's "
+        "BlueScale / BlueShift / BlueFuzz are outside the property's list of scaled quantities: required unchanged where compared as "
+        "bytes, else not compared; the Private DICT's zones, stem widths and default/nominal widths are compared as design units",
+        "numbers of glyphs whose coordinates are fractional before scaling are not judged (integer arithmetic in the judge; counted)",
+        "an exception while scaling UP is counted as out of domain (a 16-bit field may overflow); while scaling down or reordering it is a rejection",
+        "post tables with duplicate glyph names are treated as carrying no names",
         "COLRv1 paint graphs under scale_upem are only checked through ClipBoxes/VarStore (rescaled by paint wrapping, not modelled)",
         "HarfBuzz outline of a charstring contour whose closing line appears/disappears through accumulated rounding is skipped (counted)",
         "shaping positions under scale_upem use the loose derived bound (2 + 3*lookups*glyphs)/2; exact per-value bounds are checked on the tables",
         "AAT / Graphite tables are declared unsupported by scale_upem: they must be byte-identical (left untouched)",
     ]
+
+
+# Root causes: one stable key per defect.  A root cause is recognised by its PRIMARY clause (a clause of TLC's verdict
+# that names the table / field the defect lives in); the listed SECONDARY clauses of the SAME case are observations that
+# depend on that table and are reported under the root key instead of their own.  Labelling only: every clause below was
+# rejected by TLC, and a secondary clause without its primary keeps its own key.
+ROOT_CAUSES = [
+    ("reorder:CFF2-charstrings-keyed-after-order-change", {("nameview", "CFF2.program")},
+     {("nameview", "outline"), ("nameview", "CFF2.fd"), ("table", "hhea"), ("table", "vhea"), ("table", "head"), ("bygid", "hb.draw"),
+      ("bygid", "hb.vorg"), ("bygid", "hb.var"), ("bygid", "hb.math"), ("shape", "hb")}),
+    ("reorder:CFF-FDSelect-not-permuted", {("nameview", "CFF.fd")}, {("shape", "hb"), ("bygid", "hb.hadv")}),
+    # only for input fonts WITHOUT the map (meta.implicit_metric_maps, a fact about the input); a font with an explicit map
+    # that fails the same clause keeps the clause's own key
+    ("reorder:HVAR-VVAR-implicit-glyph-id-map", {("nameview", "HVAR.AdvWidthMap"), ("nameview", "VVAR.AdvHeightMap")},
+     {("bygid", "hb.var")}, lambda t: bool(t["meta"].get("implicit_metric_maps"))),
+    ("reorder:VARC-coverage-not-sorted", {("sorted", "VARC:Coverage")}, set()),
+    ("reorder:SVG-glyph-ids-dangling", {("nodangling", "SVG ")}, set()),
+    ("scale:VORG-records-not-scaled", {("scaled", "VORG.records")}, {("hb-scaled", "hb.vorg")}),
+    ("scale:CFF-FontMatrix-default-mutated-not-stored", {("nothingelse", "CFF.FontMatrix"), ("nothingelse", "CFF2.FontMatrix")}, set()),
+    ("scale:MATH-plain-int16-fields-not-scaled", {("scaled", "MATH.plain-int16-fields")},
+     {("hb-scaled", "hb.math.constant"), ("hb-scaled", "hb.math.minoverlap"), ("hb-scaled", "hb.math.variant-advance"), ("hb-scaled", "hb.math.part")}),
+    ("scale:avar2-VarStore-deltas-scaled", {("nothingelse", "avar")}, set()),
+]
+
+
+def _lean(t):
+    """What TLC needs of a case, compactly: strings once (keys), numbers in columns."""
+    if t["k"] != "scale":
+        return {k: v for k, v in t.items() if k != "meta" and not k.startswith("_")}
+    keys, kid = [], {}
+
+    def K(x):
+        if x not in kid:
+            keys.append(x)
+            kid[x] = len(keys)
+        return kid[x]
+
+    g = _gcd(t["ub"], t["want"]) if t["ub"] > 0 and t["want"] > 0 else 1
+    out = {"k": "scale", "ub": t["ub"], "ua": t["ua"], "want": t["want"], "num": t["want"] // g, "den": t["ub"] // g, "keys": keys}
+    for name, rows in (("t", t["tabs"]), ("f", t["fm"]), ("h", t["hbt"])):
+        out[name + "k"] = [K(r[0]) for r in rows]
+        out[name + "b"] = [r[1] for r in rows]
+        out[name + "a"] = [r[2] for r in rows]
+    return out
 
 
 def judge_results(chk, results):
@@ -848,7 +948,7 @@ def judge_results(chk, results):
                 numbers += st.get("numbers", 0)
         for t, key in r["traces"]:
             descs.append(t.pop("_desc", {}))
-            traces.append(_strip(t))
+            traces.append(t)
             keys.append(key)
     chk.notes["transformation_raised"] = sorted(raised)[:40]
     chk.notes["design_unit_numbers_compared"] = numbers
@@ -862,36 +962,98 @@ def judge_results(chk, results):
             structured = len(t["tb"]) > 8 or any("glyf" in f or "gvar" in f or "HVAR" in f for f in t["nf"])
             if t["meta"].get("moved", 0) >= 2 and structured:
                 chk.nontriv(key)
-        elif t["ub"] != t["want"] and len(t["items"]) >= 20:
+        elif t["ub"] != t["want"] and len(t["_items"]) >= 20:
             chk.nontriv(key)
     for t in traces[:2] + [x for x in traces if x["k"] == "scale"][:2]:
         chk.sample({"meta": t["meta"], "k": t["k"], "fields": t.get("nf"), "tables": [x[0] for x in t.get("tb", t.get("tabs", []))][:30],
-                    "numbers": len(t.get("items", []))})
-    chk.log("judging %d traces (%d reorder, %d scale) with TLC" % (len(traces), nre, len(traces) - nre))
-    lean = [{k: v for k, v in t.items() if k != "meta"} for t in traces]      # TLC does not need the labels
+                    "numbers": len(t.get("_items", []))})
+    # design-unit numbers: the fact "v became v2 under factor num/den, bound h/2" is the same for every case it occurs in
+    # (hundreds of corpus fonts share their outlines); every DISTINCT fact is judged once by TLC (kind "nums"), and the
+    # verdicts are joined back to the cases here (bookkeeping, no arithmetic).
+    groups = {}     # (num, den) -> {(vb, va, h): index}
+    refs = []       # per case: [(clause, key, (num, den), index)]
+    for t in traces:
+        rr = []
+        if t["k"] == "scale" and t["ub"] > 0 and t["want"] > 0:
+            g = _gcd(t["ub"], t["want"])
+            k = (t["want"] // g, t["ub"] // g)
+            facts = groups.setdefault(k, {})
+            for cl, rows in (("scaled", t["_items"]), ("hb-scaled", t["_hbi"])):
+                for key, vb, va, h in rows:
+                    f = (vb, va, h)
+                    i = facts.get(f)
+                    if i is None:
+                        i = facts[f] = len(facts)
+                    rr.append((cl, key, k, i))
+        refs.append(rr)
+    NUMS = 20000
+    nums, where = [], {}
+    for k in sorted(groups):
+        rows = sorted(groups[k].items(), key=lambda kv: kv[1])
+        for base in range(0, len(rows), NUMS):
+            part = rows[base : base + NUMS]
+            where[(k, base // NUMS)] = len(nums)
+            nums.append({"k": "nums", "num": k[0], "den": k[1], "vb": [f[0] for f, _ in part], "va": [f[1] for f, _ in part], "h": [f[2] for f, _ in part]})
+    chk.notes["distinct_scaled_number_facts"] = sum(len(v) for v in groups.values())
+    chk.log("judging %d cases (%d reorder, %d scale) and %d distinct scaled-number facts with TLC" % (
+        len(traces), nre, len(traces) - nre, chk.notes["distinct_scaled_number_facts"]))
+    lean = [_lean(t) for t in traces] + nums
     index = {id(t): i for i, t in enumerate(lean)}
-    rej = chk.judge("Trace_C17", lean, chunk=400 if chk.tier == "quick" else 250, multi=True, timeout=1800)
-    nskip = 0
+    before = chk.traces_validated
+    rej = chk.judge("Trace_C17", lean, chunk=1500 if chk.tier == "quick" else 1000, multi=True, timeout=1800)
+    verdicts = [set() for _ in traces]
+    numbad = {}     # index of nums trace -> {position: "bad" | "overflow"}
     for lt, clauses in rej:
         i = index[id(lt)]
-        t = traces[i]
-        for clause in clauses:
-            c0 = clause[0] if clause else "?"
+        if i >= len(traces):
+            for c in clauses:
+                numbad.setdefault(i - len(traces), {})[c[1] - 1] = c[0]
+        else:
+            for c in clauses:
+                verdicts[i].add((c[0] if c else "?", c[1] if len(c) > 1 else ""))
+    for i, rr in enumerate(refs):
+        for cl, key, k, fi in rr:
+            v = numbad.get(where[(k, fi // NUMS)], {}).get(fi % NUMS)
+            if v == "bad":
+                verdicts[i].add((cl, key))
+            elif v == "overflow":
+                verdicts[i].add(("skip:overflow", key))
+            elif v is not None:
+                raise MachineryError("Trace_C17: unknown verdict %r of a scaled-number fact" % (v,))
+    validated = 0
+    only_skip = 0
+    for i, t in enumerate(traces):
+        cl = verdicts[i]
+        for c0, arg in sorted(cl, key=repr):
             if c0.startswith("skip:"):
                 chk.skip("out of domain: " + c0[5:])
-                chk.traces_validated -= 0
-                nskip += 1
-                continue
-            arg = clause[1] if len(clause) > 1 else ""
-            key = "%s:%s:%s" % (t.get("op", t["k"]), c0, arg)
-            d = descs[i].get(c0) or descs[i].get("%s:%s" % (c0, arg)) or ""
+        real = {c for c in cl if not c[0].startswith("skip:")}
+        if not cl:
+            validated += 1
+        elif not real:
+            only_skip += 1
+        op = t.get("op", t["k"])
+        labelled = []
+        for root, primary, secondary, *cond in ROOT_CAUSES:
+            hit = real & primary
+            if hit and root.startswith(op + ":") and (not cond or cond[0](t)):
+                labelled.append((root, sorted(hit, key=repr)[0], sorted(real & (primary | secondary), key=repr)))
+                real -= primary | secondary
+        for c0, arg in sorted(real, key=repr):
+            labelled.append(("%s:%s:%s" % (op, c0, arg), (c0, arg), [(c0, arg)]))
+        for key, (c0, arg), clauses in labelled:
+            d = descs[i].get(c0) or descs[i].get("%s:%s" % (c0, arg)) or t["meta"].get("error", "")
             what = "%s %s: clause %s %s -- %s" % (t["meta"].get("font"), {k: v for k, v in t["meta"].items() if k in ("op", "perm", "upem", "target")},
                                                 c0, arg, d)
-            chk.reject(key, what, {"font": t["meta"].get("font"), "meta": t["meta"], "clause": clause, "detail": d})
-    # traces whose only verdicts are skips were not validated
-    only_skip = sum(1 for _t, cl in rej if all((c[0] if c else "").startswith("skip:") for c in cl))
-    chk.traces_validated -= 0
+            chk.reject(key, what, {"font": t["meta"].get("font"), "meta": t["meta"], "clauses": [list(c) for c in clauses], "detail": d})
+    chk.traces_validated = before + validated      # cases without any failing clause (facts are not cases)
     chk.notes["out_of_domain_cases"] = only_skip
+
+
+def _gcd(a, b):
+    while b:
+        a, b = b, a % b
+    return a
 
 
 def replay(chk, rep):
